@@ -118,7 +118,7 @@ func init() {
 			map[string]int64{"index_comparisons": 500, "replica_comparisons": 100}},
 		{"C04", cfgC04, 3200, 48000, "one case = one seeded history interleaved with random filter chains (length 1-5 over With/Without/Union/WithUnion/WithValue/WithInt/WithUint/WithFloat/WithString on indexes, value columns, bool columns and missing names); Count, the Range sequence and Sum/Avg/Min/Max over a random numeric column are compared with set algebra over the dumped rows and values (float values are dyadic rationals so every summation order is exact); non-trivial = at least 3 committed transactions",
 			map[string]int64{"filter_chains": 500, "aggregates": 300}},
-		{"C07", cfgC07, 2400, 32000, "one case = one seeded history with snapshot->restore cycles into fresh collections of the same schema (same or different capacity); dump(restored) must equal dump(original) (rows, offsets, values of all kinds, indexes, sorted order, key lookups, counts) and the history then continues on the restored collection under the value/live/key oracles; non-trivial = at least 3 committed transactions",
+		{"C07", cfgC07, 1200, 32000, "one case = one seeded history with snapshot->restore cycles into fresh collections of the same schema (same or different capacity); dump(restored) must equal dump(original) (rows, offsets, values of all kinds, indexes, sorted order, key lookups, counts) and the history then continues on the restored collection under the value/live/key oracles; non-trivial = at least 3 committed transactions",
 			map[string]int64{"restores": 60, "restored_rows": 1000}},
 		{"C11", cfgC11, 1600, 40000, "one case = one seeded insert/delete-heavy history over fragmented fill patterns (dense fill then sparse survivors around word and block boundaries); every offset returned by an insert is checked against the model's live set and the transaction's own reservations, after every step Range/Count/Txn.Count must equal the live set and every cell of a new row must be what its insert stored (anything else is stale data); non-trivial = at least 3 committed transactions",
 			map[string]int64{"txn_committed": 500}},
